@@ -47,8 +47,10 @@ private theorem collect_aux (doc : Doc) : ∀ (acc c : Collected), doc.foldlM co
         simp only [collectStep] at hs
         split at hs
         · simp [sdlErr] at hs
-        · simp [pure, Except.pure] at hs; subst hs
-          simp [typeDefs, dirDefs] at this ⊢; exact this
+        · split at hs
+          · simp [sdlErr] at hs
+          · simp [pure, Except.pure] at hs; subst hs
+            simp [typeDefs, dirDefs] at this ⊢; exact this
       | directive dd =>
         simp only [collectStep] at hs
         split at hs
@@ -86,7 +88,7 @@ private theorem collect_err_aux (doc : Doc) : ∀ (acc : Collected) (e : Err), d
       cases h
       cases d <;> simp only [collectStep] at hs
       all_goals first
-        | (split at hs <;> simp_all [sdlErr, pure, Except.pure])
+        | (split at hs <;> first | (split at hs <;> simp_all [sdlErr, pure, Except.pure]) | simp_all [sdlErr, pure, Except.pure])
         | simp_all [pure, Except.pure]
 
 /-- Duplicate detection fails with `SDLError` only. -/
